@@ -718,6 +718,19 @@ func (g *Gen) backEdgeObls(p *ssa.BasicBlock, li *loopInfo) {
 		d := env.tr(li.spec.Dec).S
 		g.assert(est, fmt.Sprintf("loop%d", li.ord), "decreases", and("(>= "+li.decHead+" 0)", "(< "+d+" "+li.decHead+")"), li.spec.Dec.String(), li.minPos)
 	}
+	if len(li.spec.Step) > 0 {
+		sv := map[string]Val{}
+		for k, v := range vars {
+			sv[k] = v
+		}
+		for k, v := range li.headEnv {
+			sv["prev_"+k] = v
+		}
+		senv := g.env(est, sv)
+		for j, e := range li.spec.Step {
+			g.assertExpr(est, senv, fmt.Sprintf("loop%d", li.ord), fmt.Sprintf("step%d", j+1), e, li.spec.StepSrc[j], li.minPos)
+		}
+	}
 }
 
 // scopeAt computes the source-level names visible at the head of block b.
